@@ -409,6 +409,9 @@ func (s *Solver) fallback(extra *Term, vars []*Term, wantModel bool) (SatResult,
 	} else {
 		bes = append(bes, be{0, []string{"z3", "-smt2", fmt.Sprintf("-T:%d", tsec)}, ""})
 	}
+	if d := os.Getenv("VERIF_DUMP_UNKNOWN"); d != "" {
+		os.WriteFile(fmt.Sprintf("%s/unknown-%d.smt2", d, time.Now().UnixNano()), []byte(body), 0o644)
+	}
 	for _, b := range bes {
 		os.WriteFile(f.Name(), []byte(b.prefix+body), 0o644)
 		argv := append(append([]string{}, b.argv...), f.Name())
